@@ -550,6 +550,13 @@ def gen_struct(rng, n_records, kts=KT_ALL):
         steps = []
         for tag, spec in struct_mutations(rng, rec):
             steps.append({"op": "decode", "kts": kts, "input": spec, "tag": tag})
+        # structural defects that the signature does NOT cover (the signed content is the intact record): an item appended
+        # behind the last pair -- a key, the empty string, a list --, the last value cut off, a pair prepended
+        orig = items_of(rec)
+        for tag, items in [("unsigned_dangling_key", orig + [{"s": B("zzzz")}]), ("unsigned_dangling_empty_string", orig + [{"s": []}]),
+                           ("unsigned_dangling_list", orig + [{"x": [0xc0]}]), ("unsigned_last_value_missing", orig[:-1]),
+                           ("unsigned_pair_prepended", [orig[0], {"s": [0x01]}, {"s": [2]}] + orig[1:])]:
+            steps.append({"op": "decode", "kts": kts, "input": {"rec": {"items": items, "sig": {"by": rec["by"], "over": orig}}}, "tag": tag})
         out.append({"sid": sid(), "steps": steps})
     return out
 
@@ -1520,6 +1527,16 @@ def gen_nid(rng, n_random):
             steps.append({"op": "decode", "kts": KT_ALL, "input": {"from": "r"}, "tag": "nid_both"})
             steps.append({"op": "call", "h": "r", "m": "set_udp4", "args": {"port": 2}, "signer": name})
             steps.append({"op": "decode", "kts": KT_ALL, "input": {"from": "r"}, "tag": "nid_both"})
+    # one builder, two keys: a record built with key A, then the builder is given key B's entry and builds with B; and
+    # records of different keys refreshed from one another (clone_from, in the compare event)
+    for kt, a, b in [("k256", "k1", "k4"), ("libsecp", "k2", "k3"), ("comb", "k4", "k1"), ("ed", "e1", "e2"), ("comb", "e2", "e1")]:
+        entry = {"m": "add_value", "key": B(pk_key(b)), "val": {"ty": "bytes", "v": KEYS[b]["pk"]}}
+        steps.append({"op": "build", "h": "p", "kt": kt, "signer": b, "first_signer": a, "rebuild": True, "obs": "full",
+                      "calls": [{"m": "udp4", "port": 4}], "calls2": [entry]})
+        steps.append({"op": "build", "h": "q", "kt": kt, "signer": a, "calls": [{"m": "udp4", "port": 4}]})
+        steps.append({"op": "build", "h": "p2", "kt": kt, "signer": b, "first_signer": a, "rebuild": True, "calls": [{"m": "tcp4", "port": 5}], "calls2": []})
+        steps.append({"op": "compare", "a": "p", "b": "q"})
+        steps.append({"op": "compare", "a": "q", "b": "p2"})
     # ed25519 keys in non-canonical encodings (the neutral element with the x sign bit set / y = p + 1 / both) under the
     # trivial signature: where the back-end accepts them, the id is the hash of the 32 bytes AS STORED
     ident = [1] + [0] * 31
